@@ -40,6 +40,10 @@ POSITIONS = {
     'two-model-versions': 'select * from int1.t1 as t join proj.pred2.1 as m1 join proj.pred2.2 as m2',
     'model-version-and-plain': 'select * from int1.t1 as t join proj.pred2.3 as m1 join proj.pred2 as m2',
     'two-models-then-table': 'select * from int1.t1 as t join mindsdb.pred.7 as m1 join {T} as x on x.a = t.a join mindsdb.pred.8 as m2',
+    # versioned and plain references to one model in different places of one statement
+    'model-plain-outer-versioned-subquery': 'select * from mindsdb.pred where a = (select b from mindsdb.pred.3 where a = 1)',
+    'model-versioned-outer-plain-subquery': 'select * from mindsdb.pred.3 where a = (select b from mindsdb.pred where a = 1)',
+    'model-plain-then-versioned-in-table-subquery': 'select * from int1.t1 where a in (select b from mindsdb.pred.3 where a = 1) and b in (select b from mindsdb.pred where a = 2)',
     # a CTE whose name equals the last part of an integration-qualified table of the same statement
     'cte-name-shadows-table': 'with t2 as (select * from int2.t5) select * from int1.t2 as a join {T} as b on a.a = b.a',
     'cte-name-shadows-single-table': 'with t2 as (select * from int2.t5) select * from int1.t2 where a in (select a from {T})',
@@ -147,6 +151,10 @@ def _case(args):
         return {'status': 'refused', 'msg': str(e)[:100]}
     except Exception as e:   # noqa
         return {'status': 'internal:' + type(e).__name__}
+    return _facts(sql, tables, cat, plan)
+
+
+def _facts(sql, tables, cat, plan):
     fetches, applies = [], []
 
     def visit(o, path):
@@ -162,6 +170,22 @@ def _case(args):
     return {'status': 'ok', 'x': {'cat': cat, 'tables': tables, 'fetches': [{'int': f['int'], 'tables': f['tables']} for f in fetches],
                                   'applies': applies},
             'fetch_sql': [(f['int'], f['sql']) for f in fetches], 'applies': applies}
+
+
+def _hist(args):
+    """Routing facts of every plan of one call history (one planner object / shared catalog objects)."""
+    sqls, catname, mode = args
+    from mindsdb_sql import parse_sql
+    from . import planhist
+    kw = plancorpus.catalog(catname)
+    cat = catalog_rec(copy.deepcopy(kw))
+    out = []
+    for sql, st, plan in planhist.run_history(sqls, kw, mode):
+        if plan is None:
+            out.append({'status': st})
+            continue
+        out.append(_facts(sql, table_occurrences(parse_sql(sql, 'mindsdb')), cat, plan))
+    return out
 
 
 def run(ctx):
@@ -183,6 +207,19 @@ def run(ctx):
             work.append((h['sql'], h['kwargs']))
             meta.append(('tests', 'tests', 'as-written', 'tests', h['sql']))
     res = pmap(_case, work, chunksize=32)
+    # call histories
+    import random
+    from . import planhist
+    rng = random.Random(ctx.seed + 10)
+    pool = sorted({m[4] for m in meta if m[3] == 'names'})
+    hs = planhist.histories(rng, 200 if thorough else 40, pool)
+    hwork = [(h, c, m) for h in hs for c in (('names', 'dicts', 'legacy-dict') if thorough else ('names', 'legacy-dict'))
+             for m in ('planner', 'catalog')]
+    for (h, c, m), out in zip(hwork, pmap(_hist, hwork, chunksize=4)):
+        for pos, r in enumerate(out):
+            work.append((h[pos], None))
+            meta.append(('history-%s' % m, 'history', 'as-written', c, ' ;; '.join(h[:pos + 1])))
+            res.append(r)
     traces, tmeta = [], []
     status = {}
     for m, r in zip(meta, res):
